@@ -9,7 +9,7 @@
    including exceptions) and the no-exception / module-shape predicates on the implementation. *)
 From Coq Require Import List NArith Bool.
 Import ListNotations.
-Require Import Regex Tok Engine EngineShape Tree TokShape Tables Grammars Model.
+Require Import Regex Tok Engine EngineShape EngineFuel Tree TokShape Tables Grammars Model.
 Require C09.
 Open Scope N_scope.
 
@@ -37,6 +37,13 @@ Proof.
 Qed.
 Theorem C02_parsed_trees_have_nonempty_nodes : forall v m start s t, parse_text v m start s = OTree t -> nonempty_nodes t.
 Proof. intros v m start s t H. apply ne_nonempty_nodes. eapply C02_nonempty_nodes. exact H. Qed.
+
+(* termination of the engine: the fuel the model passes to add_token / finish always suffices and the stack never runs
+   empty - for all tables, both modes, every start rule and token list *)
+Theorem C02_engine_fuel_suffices : forall G TR recover start toks,
+  parse G TR recover start toks <> PErr PFuel /\ parse G TR recover start toks <> PErr TooMuchInput.
+Proof. exact parse_fuel_suffices. Qed.
+Print Assumptions C02_engine_fuel_suffices.
 
 Example C02_example :
   match parse_text 310 Recover 0 [100;101;102;32;102;40;10;32;32;41;58;10;32;120;32;61;10] with
